@@ -423,6 +423,11 @@ class ASTNode(DataClassSerializeMixin):
 
         changes: dict[str, Any] = {}
         for obj, f in self.iter_child_fields():
+            if not f.init:
+                # Not a constructor argument (dataclasses.replace refuses it): the
+                # class derives such a child itself, and does so again for the copy
+                continue
+
             if isinstance(obj, ASTNode):
                 changes[f.name] = obj.duplicate()
             elif isinstance(obj, tuple):
